@@ -42,6 +42,7 @@ use pre::*;
 //@dbstruct definitions file_cache usages usage_by_fixture
 
 //@include prelude/db_specs.rs
+//@include prelude/lsp_config_opaque.rs
 //@include prelude/lsp_backend.rs
 //@include prelude/handlers_spec.rs
 //@include prelude/handlers2_spec.rs
